@@ -186,6 +186,7 @@ impl TestRunner {
             .get(active_test.segment.as_ref().unwrap())
             .unwrap();
         let segment_bank = segment.options().bank.as_ref().unwrap();
+        let test_bank_name = segment_bank.clone();
         let mut bw = BinaryWriter {};
         let test_bank = bw
             .merge_segments(&ctx)?
@@ -215,7 +216,23 @@ impl TestRunner {
         );
 
         let tree = ctx.tree().clone();
+        // A test sees only the bank it is defined in: assertions and traces assembled into segments of other
+        // banks sit at addresses of *their* memory and must not fire when this bank's code reaches the same pc
         let test_elements = ctx.remove_test_elements();
+        let test_elements = test_elements
+            .into_iter()
+            .filter(|element| {
+                let segment = match element {
+                    TestElement::Assertion(a) => &a.segment,
+                    TestElement::Trace(t) => &t.segment,
+                };
+                segment
+                    .as_ref()
+                    .and_then(|name| ctx.segments().get(name))
+                    .and_then(|segment| segment.options().bank.as_ref())
+                    == Some(&test_bank_name)
+            })
+            .collect();
         Ok(Self {
             ctx: Arc::new(Mutex::new(ctx)),
             tree,
